@@ -42,6 +42,11 @@ def obligations():
                  "the default bond list covers every molecule and attaches one not-yet-attached atom per step", 600))
     o.append(Obl("C11.python.wrappers", "xh", "harness.c11_py", "wrappers", ["mdtraj.core.trajectory.Trajectory.make_molecules_whole", "Trajectory.image_molecules"], "inplace x make_whole x explicit/guessed molecules x 3 symbolic bonds",
                  "inplace=False leaves the original untouched and shares nothing; cell and times unchanged; arguments handed to the routine", 600))
+    o.append(Obl("C11.python.other_molecules", "xh", "harness.c11_py", "other_molecules_default", ["mdtraj.core.trajectory.Trajectory.image_molecules", "mdtraj.core.topology.Topology.find_molecules"],
+                 "bond graph on 4 atoms + ion (4 symbolic edges), multi-atom or single-atom residues, explicit anchor, other molecules left to the library",
+                 "every non-anchor connected component is handed over as one molecule (so it is wrapped as a unit)", 600))
+    o.append(Obl("C11.python.bond_order_after_edit", "xh", "harness.c11_py", "bond_order_after_edit", ["mdtraj.core.trajectory.Trajectory.make_molecules_whole", "Trajectory._bonds_in_assembly_order", "Trajectory.atom_slice", "Topology.add_bond"],
+                 "re-image, then add any of 6 bonds in place or atom_slice(inplace=True), then re-image", "the second call walks the current bond graph (no stale bond list)", 600))
     return o
 
 
